@@ -50,3 +50,53 @@ package electreIII
 //@   refines model.BiasListener.RankCriteriaAscending with validParams=elValid, coversId=elCovers, imp=elImportance
 //@   loop 1 invariant [copied] forall k string :: seen(k) ==> (k in weights && weights[k] == (*params.MethodParameters.(electreIIIParams).Criteria)[k].K)
 //@   loop 1 invariant [ctx] fresh(weights) && weights != nil
+
+// ---- the method's per-criterion indices and credibility (C05, C06)
+
+// conc / disc: per-criterion concordance and discordance for the preference difference d = (signed value of b) - (signed value of a)
+// and thresholds q (indifference), p (preference), v (veto), each possibly absent (hq, hp, hv)
+//@ spec conc(d real, hq bool, q real, hp bool, p real) real =
+//@      d <= 0.0 ? 1.0 : ((hq && q >= d) ? 1.0 : ((hp && p >= d) ? 1.0 - (d - (hq ? q : 0.0)) / (p - (hq ? q : 0.0)) : 0.0))
+//@ spec disc(d real, hq bool, q real, hp bool, p real, hv bool, v real) real =
+//@      d <= 0.0 ? 0.0 : ((hq && q >= d) ? 0.0 : ((hp && p >= d) ? 0.0 : ((hv && v >= d) ? (d - (hp ? p : 0.0)) / (v - (hp ? p : 0.0)) : (hv ? 1.0 : 0.0))))
+//@ pred present(f utils.LinearFunctionParameters) = !(f.A == 0.0 && f.B == 0.0)
+//@ spec thr(f utils.LinearFunctionParameters, x real) real = present(f) ? f.A * x + f.B : 0.0
+
+//@ func calculateElectreResult
+//@   property C05 C06
+//@   ensures [not_worse_is_concordant] c1Val >= c2Val ==> result.C == 1.0 && result.D == 0.0
+//@   ensures [indices] fresh(result)
+//@             && result.C == conc(c2Val - c1Val, present(ths.Q), thr(ths.Q, c1Val * model.mult(*c)), present(ths.P), thr(ths.P, c1Val * model.mult(*c)))
+//@             && result.D == disc(c2Val - c1Val, present(ths.Q), thr(ths.Q, c1Val * model.mult(*c)), present(ths.P), thr(ths.P, c1Val * model.mult(*c)), present(ths.V), thr(ths.V, c1Val * model.mult(*c)))
+
+//@ lemma [C05 C06] indices_monotone_in_difference: forall d1 real, d2 real, hq bool, q real, hp bool, p real, hv bool, v real
+//@   requires d1 <= d2 && (hq ==> q >= 0.0) && (hp ==> p > (hq ? q : 0.0)) && (hv ==> hp && v > p)
+//@   ensures  conc(d1, hq, q, hp, p) >= conc(d2, hq, q, hp, p)
+//@   ensures  disc(d1, hq, q, hp, p, hv, v) <= disc(d2, hq, q, hp, p, hv, v)
+//@ lemma [C05] indices_in_unit_interval: forall d real, hq bool, q real, hp bool, p real, hv bool, v real
+//@   requires (hq ==> q >= 0.0) && (hp ==> p > (hq ? q : 0.0)) && (hv ==> hp && v > p)
+//@   ensures  0.0 <= conc(d, hq, q, hp, p) && conc(d, hq, q, hp, p) <= 1.0 && 0.0 <= disc(d, hq, q, hp, p, hv, v) && disc(d, hq, q, hp, p, hv, v) <= 1.0
+//@   ensures  conc(d, hq, q, hp, p) > 0.0 ==> disc(d, hq, q, hp, p, hv, v) == 0.0
+
+//@ spec sumK(rs []*electreIIISingleResult, n int) real = n <= 0 ? 0.0 : sumK(rs, n - 1) + rs[n - 1].criterion.K
+//@ spec sumKC(rs []*electreIIISingleResult, n int) real = n <= 0 ? 0.0 : sumKC(rs, n - 1) + rs[n - 1].criterion.K * rs[n - 1].result.C
+//@ func calculateTotalC
+//@   property C05 C06
+//@   ensures [weighted_mean] result == sumKC(*results, len(*results)) / sumK(*results, len(*results))
+//@   loop 1 invariant [partial] weightSum == sumK(*results, iter) && totalC == sumKC(*results, iter)
+
+//@ spec cred(C real, rs []*electreIIISingleResult, n int) real =
+//@      n <= 0 ? C : cred(C, rs, n - 1) * (rs[n - 1].result.D > C ? (1.0 - rs[n - 1].result.D) / (1.0 - C) : 1.0)
+//@ func calculateCredibility
+//@   property C05 C06
+//@   ensures [veto_product] result == cred(C, *results, len(*results))
+//@   loop 1 invariant [partial] credibility == cred(C, *results, iter)
+
+//@ lemma [C06] credibility_factor_monotone: forall cr1 real, cr2 real, c1 real, c2 real, d1 real, d2 real
+//@   requires 0.0 <= cr1 && cr1 <= cr2 && 0.0 <= c1 && c1 <= c2 && c2 < 1.0 && 0.0 <= d2 && d2 <= d1 && d1 <= 1.0
+//@   ensures  cr1 * (d1 > c1 ? (1.0 - d1) / (1.0 - c1) : 1.0) <= cr2 * (d2 > c2 ? (1.0 - d2) / (1.0 - c2) : 1.0)
+//@   ensures  0.0 <= cr1 * (d1 > c1 ? (1.0 - d1) / (1.0 - c1) : 1.0)
+
+//@ func evaluateAlternativesPair
+//@   property C05 C06
+//@   ensures [unit_diagonal] i == j ==> result == 1.0
